@@ -214,7 +214,9 @@ func main() {
 		fmt.Fprintln(os.Stderr, "usage: codecdrv tables|probe|replay|random|fuzz|fuzzone ...")
 		os.Exit(2)
 	}
-	log.Global.SetOutput(io.Discard)
+	if os.Getenv("CODEC_LOG") == "" {
+		log.Global.SetOutput(io.Discard)
+	}
 	switch os.Args[1] {
 	case "tables":
 		cmdTables()
